@@ -133,6 +133,8 @@ type Input struct {
 	Path    []string   // field path below that parameter (empty: the parameter itself)
 	LenOnly bool       // the input is len(...) of a slice whose elements are not integers
 	Type    types.Type // Go type of the parameter / field
+	Written bool       // the function assigns this field: its final value is part of the result
+	Oracle  string     // not "": the value returned by this call of a function outside the set
 }
 
 // Func is the result of translating one function.
@@ -146,8 +148,10 @@ type Func struct {
 	Inputs  []*Input
 	Results []Kind
 	ResGo   []types.Type
+	Extern  bool     // "F#extern": not translated; calls of F are inputs of their callers
 	Prefix  int      // > 0: only the first Prefix statements of the body are translated ("F#prefix")
-	Vars    []string // prefix: the variables handed on (Some (...))
+	Vars    []string // prefix: the variables handed on (Reached (...))
+	Written []*Input // the fields it assigns (their final values follow the results)
 	Monadic bool     // result type is `outcome ...` (the function can panic or loop)
 	Fuel    bool     // first parameter is fuel : nat
 	Loops   []string
@@ -173,13 +177,14 @@ func (f *Func) ResType() string {
 type Translator struct {
 	Pkg    *Pkg // the package the unqualified names belong to
 	others map[string]*Pkg
+	Extern map[string]bool // functions declared "F#extern": what their calls return is an input
 	Prefix string
 	Funcs  map[string]*Func // by key()
 	Order  []*Func
 }
 
 func New(p *Pkg, prefix string) *Translator {
-	return &Translator{Pkg: p, others: map[string]*Pkg{}, Prefix: prefix, Funcs: map[string]*Func{}}
+	return &Translator{Pkg: p, others: map[string]*Pkg{}, Extern: map[string]bool{}, Prefix: prefix, Funcs: map[string]*Func{}}
 }
 
 func key(f *types.Func) string { return strings.Replace(f.FullName(), "*", "", -1) }
@@ -197,8 +202,9 @@ type ctx struct {
 type loopInfo struct {
 	name    string
 	state   []*types.Var
-	envDecl string // parameters of the body definition (without fuel and state)
-	envArgs string // the same names as arguments
+	pstate  []*Input // fields assigned in the loop: part of its state as well
+	envDecl string   // parameters of the body definition (without fuel and state)
+	envArgs string   // the same names as arguments
 	fuel    bool
 	stTy    string
 	rng     *rangeInfo // for a range loop
@@ -206,27 +212,31 @@ type loopInfo struct {
 
 // per-function translation state
 type ft struct {
-	T       *Translator
-	info    *types.Info
-	fn      *Func
-	pure    bool // second pass: no outcome wrapper
-	effect  bool // something can panic or loop
-	effects int  // how many such places were translated so far
-	err     error
-	names   map[*types.Var]string
-	taken   map[string]bool
-	inputs  map[string]*Input
-	order   []*Input // path inputs in order of first use
-	pre     []bind
-	tmpN    int
-	loopN   int
-	loops   []string
-	memo    map[ast.Stmt]*loopInfo
-	touched []map[*Input]bool
-	fuel    []bool
-	named   []*types.Var // named results
-	prefix  int          // prefix mode: number of statements
-	vars    []*types.Var // prefix mode: the variables handed on
+	T        *Translator
+	info     *types.Info
+	fn       *Func
+	pure     bool // second pass: no outcome wrapper
+	effect   bool // something can panic or loop
+	effects  int  // how many such places were translated so far
+	err      error
+	names    map[*types.Var]string
+	taken    map[string]bool
+	inputs   map[string]*Input
+	order    []*Input // path inputs in order of first use
+	pre      []bind
+	tmpN     int
+	loopN    int
+	loops    []string
+	memo     map[ast.Stmt]*loopInfo
+	touched  []map[*Input]bool
+	fuel     []bool
+	named    []*types.Var // named results
+	written  []*Input     // fields the function assigns, in source order
+	oracles  map[*ast.CallExpr][]*Input
+	orcl     []*Input
+	retIndex map[*ast.ReturnStmt]int // prefix mode: the return statements of the function, numbered in source order
+	prefix   int                     // prefix mode: number of statements
+	vars     []*types.Var            // prefix mode: the variables handed on
 }
 
 func (t *ft) fail(format string, a ...interface{}) string {
@@ -659,7 +669,16 @@ func (t *ft) call(x *ast.CallExpr) string {
 	}
 	callee := t.T.Funcs[key(fo)]
 	if callee == nil || callee.Err != nil {
+		if v, ok := t.oracle(x, fo, recv); ok {
+			return v
+		}
 		return t.fail("call of untranslated function %s", strings.TrimPrefix(key(fo), fo.Pkg().Path()+"."))
+	}
+	if len(callee.Written) > 0 {
+		return t.fail("call of %s, which writes fields", callee.Name)
+	}
+	if callee.Prefix > 0 {
+		return t.fail("call of a fragment")
 	}
 	if sig := fo.Type().(*types.Signature); sig.Variadic() {
 		return t.fail("variadic call")
@@ -710,6 +729,97 @@ func (t *ft) call(x *ast.CallExpr) string {
 	return term
 }
 
+// the full name of the function or method a call invokes ("" if it is not a declared one)
+func (t *ft) calleeName(x *ast.CallExpr) string {
+	var obj types.Object
+	switch f := unparen(x.Fun).(type) {
+	case *ast.Ident:
+		obj = t.info.Uses[f]
+	case *ast.SelectorExpr:
+		if sel := t.info.Selections[f]; sel != nil {
+			obj = sel.Obj()
+		} else {
+			obj = t.info.Uses[f.Sel]
+		}
+	}
+	if fo, ok := obj.(*types.Func); ok {
+		return key(fo)
+	}
+	return ""
+}
+
+// calls that are skipped: locking (the semantics is sequential) and log output; their
+// arguments must be constants or plain names, so that skipping them loses no panic
+func (t *ft) ignored(x *ast.CallExpr) bool {
+	switch n := t.calleeName(x); n {
+	case "(sync.Mutex).Lock", "(sync.Mutex).Unlock", "(sync.RWMutex).Lock", "(sync.RWMutex).Unlock", "(sync.RWMutex).RLock", "(sync.RWMutex).RUnlock",
+		"log.Printf", "log.Println", "log.Print":
+	default:
+		return false
+	}
+	if sel, ok := unparen(x.Fun).(*ast.SelectorExpr); ok && !harmless(sel.X) {
+		return false
+	}
+	for _, a := range x.Args {
+		if _, isConst := t.isConst(a); !isConst && !harmless(a) {
+			return false
+		}
+	}
+	return true
+}
+
+// a call of a package-level function declared "F#extern", with integer/bool arguments
+// and results, outside any loop: its results are inputs of the definition (x_<name>_<k>: "what
+// this call returned"); the arguments are still evaluated.  ASSUMED: the function does not
+// touch the fields the translated function reads or writes.
+func (t *ft) oracle(x *ast.CallExpr, fo *types.Func, recv ast.Expr) (string, bool) {
+	sig := fo.Type().(*types.Signature)
+	if !t.T.Extern[key(fo)] || recv != nil || sig.Recv() != nil || sig.Variadic() || sig.Results().Len() == 0 {
+		return "", false
+	}
+	if len(t.touched) > 0 {
+		return t.fail("call of the external function %s inside a loop", fo.Name()), true
+	}
+	for i := 0; i < sig.Params().Len(); i++ {
+		if k := KindOf(sig.Params().At(i).Type()); k != KZ && k != KBool {
+			return "", false
+		}
+	}
+	for i := 0; i < sig.Results().Len(); i++ {
+		if k := KindOf(sig.Results().At(i).Type()); k != KZ && k != KBool {
+			return "", false
+		}
+	}
+	for _, a := range x.Args {
+		t.expr(a) // evaluated for its panics
+	}
+	ins := t.oracles[x]
+	if ins == nil {
+		n := 1
+		for _, o := range t.orcl {
+			if strings.HasPrefix(o.Oracle, fo.Name()+"#") {
+				n++
+			}
+		}
+		for i := 0; i < sig.Results().Len(); i++ {
+			name := fmt.Sprintf("x_%s_%d", fo.Name(), n)
+			if sig.Results().Len() > 1 {
+				name += fmt.Sprintf("_%d", i+1)
+			}
+			in := &Input{Name: t.unique(name), Kind: KindOf(sig.Results().At(i).Type()), Param: -1, Type: sig.Results().At(i).Type(),
+				Oracle: fmt.Sprintf("%s#%d", fo.Name(), n)}
+			ins = append(ins, in)
+			t.orcl = append(t.orcl, in)
+		}
+		t.oracles[x] = ins
+	}
+	var names []string
+	for _, in := range ins {
+		names = append(names, in.Name)
+	}
+	return tuple(names), true
+}
+
 // a name or a selector chain of names: evaluating it has no effect
 func harmless(e ast.Expr) bool {
 	switch x := e.(type) {
@@ -758,7 +868,14 @@ func (t *ft) block(list []ast.Stmt, c *ctx, k cont) string {
 func (t *ft) lhs(e ast.Expr) string {
 	id, ok := unparen(e).(*ast.Ident)
 	if !ok {
-		return t.fail("assignment to something that is not a local variable")
+		if in := t.writtenPath(e); in != nil {
+			for _, w := range t.written {
+				if w == in {
+					return in.Name
+				}
+			}
+		}
+		return t.fail("assignment to something that is neither a local variable nor a field of a parameter")
 	}
 	if id.Name == "_" {
 		return "_"
@@ -772,6 +889,49 @@ func (t *ft) lhs(e ast.Expr) string {
 		}
 	}
 	return t.fail("assignment to %s, which is not a local variable", id.Name)
+}
+
+// p.f[.g] on the left of an assignment: the input standing for that field
+func (t *ft) writtenPath(e ast.Expr) *Input {
+	if _, isSel := unparen(e).(*ast.SelectorExpr); !isSel {
+		return nil
+	}
+	p, path, leaf, ok := t.pathOf(e)
+	if !ok || len(path) == 0 || KindOf(leaf) == KNone {
+		return nil
+	}
+	t.input(p, path, false, leaf)
+	return t.inputs[fmt.Sprintf("%d.%s", p, strings.Join(path, "."))]
+}
+
+// the fields assigned anywhere in the given statements, in source order
+func (t *ft) collectWritten(list []ast.Stmt) {
+	for _, st := range list {
+		ast.Inspect(st, func(n ast.Node) bool {
+			var lhs []ast.Expr
+			switch y := n.(type) {
+			case *ast.AssignStmt:
+				lhs = y.Lhs
+			case *ast.IncDecStmt:
+				lhs = []ast.Expr{y.X}
+			}
+			for _, l := range lhs {
+				if in := t.writtenPath(l); in != nil && !in.Written {
+					in.Written = true
+					t.written = append(t.written, in)
+				}
+			}
+			return true
+		})
+	}
+}
+
+func (t *ft) writtenNames() []string {
+	var ns []string
+	for _, in := range t.written {
+		ns = append(ns, in.Name)
+	}
+	return ns
 }
 
 func (t *ft) assign(lhs []ast.Expr, rhs []ast.Expr, next cont) string {
@@ -805,7 +965,11 @@ func (t *ft) stmt(s ast.Stmt, c *ctx, next cont) string {
 		return t.block(x.List, c, next)
 	case *ast.ReturnStmt:
 		if t.prefix > 0 { // a fragment ends here; what is returned is not part of it
-			return c.ret("None")
+			w := "tt"
+			if len(t.written) > 0 {
+				w = tuple(t.writtenNames())
+			}
+			return c.ret(fmt.Sprintf("(Returned %d %s)", t.retIndex[x], w))
 		}
 		return t.seq(func() string {
 			var parts []string
@@ -820,7 +984,10 @@ func (t *ft) stmt(s ast.Stmt, c *ctx, next cont) string {
 			for _, r := range x.Results {
 				parts = append(parts, t.expr(r))
 			}
-			return c.ret(tuple(parts))
+			if len(t.written) > 0 && len(x.Results) == 1 && len(t.fn.ResGo) > 1 {
+				return t.fail("return of a call with several results in a function that writes fields")
+			}
+			return c.ret(tuple(append(parts, t.writtenNames()...)))
 		})
 	case *ast.ExprStmt:
 		if call, ok := x.X.(*ast.CallExpr); ok {
@@ -832,7 +999,15 @@ func (t *ft) stmt(s ast.Stmt, c *ctx, next cont) string {
 				}
 			}
 		}
+		if call, ok := x.X.(*ast.CallExpr); ok && t.ignored(call) {
+			return next()
+		}
 		return t.fail("expression statement")
+	case *ast.DeferStmt:
+		if t.ignored(x.Call) && strings.HasSuffix(t.calleeName(x.Call), "nlock") { // defer mu.Unlock()
+			return next()
+		}
+		return t.fail("unsupported statement *ast.DeferStmt")
 	case *ast.DeclStmt:
 		gd := x.Decl.(*ast.GenDecl)
 		if gd.Tok == token.CONST {
@@ -984,6 +1159,9 @@ func (t *ft) ifJoin(x *ast.IfStmt, c *ctx, next cont) string {
 	for _, v := range vars {
 		names = append(names, t.names[v])
 	}
+	for _, in := range t.assignedPaths(parts) {
+		names = append(names, in.Name)
+	}
 	pat := "tt"
 	if len(names) > 0 {
 		pat = tuple(names)
@@ -1107,6 +1285,39 @@ func (t *ft) assignedUsed(parts []ast.Node) (assigned, used map[*types.Var]bool)
 			}
 		}
 	}
+	return t.assignedUsedWith(parts, assigned, used, mark)
+}
+
+// the fields (of parameters) that the given parts assign, in the order of t.written
+func (t *ft) assignedPaths(parts []ast.Node) []*Input {
+	hit := map[*Input]bool{}
+	for _, p := range parts {
+		ast.Inspect(p, func(n ast.Node) bool {
+			var lhs []ast.Expr
+			switch y := n.(type) {
+			case *ast.AssignStmt:
+				lhs = y.Lhs
+			case *ast.IncDecStmt:
+				lhs = []ast.Expr{y.X}
+			}
+			for _, l := range lhs {
+				if in := t.writtenPath(l); in != nil {
+					hit[in] = true
+				}
+			}
+			return true
+		})
+	}
+	var out []*Input
+	for _, in := range t.written {
+		if hit[in] {
+			out = append(out, in)
+		}
+	}
+	return out
+}
+
+func (t *ft) assignedUsedWith(parts []ast.Node, assigned, used map[*types.Var]bool, mark func(ast.Expr)) (map[*types.Var]bool, map[*types.Var]bool) {
 	for _, p := range parts {
 		ast.Inspect(p, func(n ast.Node) bool {
 			switch y := n.(type) {
@@ -1211,6 +1422,12 @@ func (t *ft) loop(node ast.Stmt, cond ast.Expr, post ast.Stmt, body *ast.BlockSt
 	for _, v := range li.state {
 		stNames, stTys = append(stNames, t.names[v]), append(stTys, KindOf(v.Type()).Coq())
 	}
+	li.pstate = t.assignedPaths(parts)
+	inState := map[*Input]bool{}
+	for _, in := range li.pstate {
+		stNames, stTys = append(stNames, in.Name), append(stTys, in.Kind.Coq())
+		inState[in] = true
+	}
 	stTuple := "tt"
 	li.stTy = "unit"
 	if len(stNames) > 0 {
@@ -1266,8 +1483,8 @@ func (t *ft) loop(node ast.Stmt, cond ast.Expr, post ast.Stmt, body *ast.BlockSt
 	// environment: the inputs and the outer variables the loop reads but does not assign
 	type pv struct{ name, ty string }
 	var ps []pv
-	for _, in := range t.order {
-		if touched[in] {
+	for _, in := range append(append([]*Input{}, t.order...), t.orcl...) {
+		if touched[in] && !inState[in] {
 			ps = append(ps, pv{in.Name, in.Kind.Coq()})
 		}
 	}
@@ -1315,6 +1532,9 @@ func (t *ft) stateTuple(li *loopInfo, rng *rangeInfo) string {
 	}
 	for _, v := range li.state {
 		n = append(n, t.names[v])
+	}
+	for _, in := range li.pstate {
+		n = append(n, in.Name)
 	}
 	if len(n) == 0 {
 		return "tt"
@@ -1389,8 +1609,8 @@ func paramDecl(names, tys []string) string {
 // Translate translates the function or method called name ("F" / "T.M", or
 // "import/path:F" / "import/path:T.M" for a callee in another package) and records it.
 func (T *Translator) Translate(name string) *Func {
-	frag := strings.HasSuffix(name, "#prefix")
-	base := strings.TrimSuffix(name, "#prefix")
+	frag, ext := strings.HasSuffix(name, "#prefix"), strings.HasSuffix(name, "#extern")
+	base := strings.TrimSuffix(strings.TrimSuffix(name, "#prefix"), "#extern")
 	pkg, decl, coq := T.Pkg, base, T.Prefix+strings.Replace(base, ".", "_", 1)
 	if i := strings.LastIndex(base, ":"); i >= 0 {
 		path := base[:i]
@@ -1413,6 +1633,17 @@ func (T *Translator) Translate(name string) *Func {
 		return fn
 	}
 	fn.Obj, _ = pkg.Info.Defs[fd.Name].(*types.Func)
+	if ext { // declared external: nothing is translated, its calls become inputs (see oracle)
+		fn.Extern = true
+		if fn.Obj == nil || fd.Recv != nil {
+			fn.Err = fmt.Errorf("only package-level functions can be declared #extern")
+			fn.Text = fmt.Sprintf("(* %s: NOT TRANSLATABLE: %v *)\n\n", name, fn.Err)
+			return fn
+		}
+		T.Extern[key(fn.Obj)] = true
+		fn.Text = fmt.Sprintf("(* %s: declared EXTERNAL - not translated; what each call of it returns is an input\n   (x_%s_<k>) of the definitions below that call it *)\n\n", name, fd.Name.Name)
+		return fn
+	}
 	pos := pkg.Fset.Position(fd.Pos())
 	where := fmt.Sprintf("%s (%s:%d)", name, filepath.Base(pos.Filename), pos.Line)
 	if fn.Obj == nil {
@@ -1479,7 +1710,21 @@ func (T *Translator) run(fn *Func, pure bool) *ft {
 		fn.Params = append(fn.Params, sig.Params().At(i))
 	}
 	t.prefix = fn.Prefix
-	if sig.Results().Len() == 0 && t.prefix == 0 {
+	t.oracles = map[*ast.CallExpr][]*Input{}
+	stmts := fn.Decl.Body.List
+	if t.prefix > 0 {
+		stmts = stmts[:t.prefix]
+	}
+	t.collectWritten(stmts)
+	t.retIndex = map[*ast.ReturnStmt]int{}
+	ast.Inspect(fn.Decl.Body, func(n ast.Node) bool {
+		if r, ok := n.(*ast.ReturnStmt); ok {
+			t.retIndex[r] = len(t.retIndex) + 1
+		}
+		_, lit := n.(*ast.FuncLit)
+		return !lit
+	})
+	if sig.Results().Len() == 0 && t.prefix == 0 && len(t.written) == 0 {
 		t.fail("function without a result")
 		return t
 	}
@@ -1490,6 +1735,11 @@ func (T *Translator) run(fn *Func, pure bool) *ft {
 			return t
 		}
 		fn.Results, fn.ResGo = append(fn.Results, KindOf(r.Type())), append(fn.ResGo, r.Type())
+	}
+	for _, in := range t.written { // (known before the body is translated: loops mention the result type)
+		if t.prefix == 0 {
+			fn.Results = append(fn.Results, in.Kind)
+		}
 	}
 	// parameters of a supported type are inputs and local variables at once
 	var scalar []*Input
@@ -1524,10 +1774,6 @@ func (T *Translator) run(fn *Func, pure bool) *ft {
 	if pure {
 		c.ret = func(v string) string { return v }
 	}
-	stmts := fn.Decl.Body.List
-	if t.prefix > 0 {
-		stmts = stmts[:t.prefix]
-	}
 	body := head + t.block(stmts, c, func() string {
 		if t.prefix > 0 { // hand on the variables of the function's own scope
 			if t.vars == nil {
@@ -1543,10 +1789,14 @@ func (T *Translator) run(fn *Func, pure bool) *ft {
 			for _, v := range t.vars {
 				parts = append(parts, t.names[v])
 			}
+			parts = append(parts, t.writtenNames()...)
 			if len(parts) == 0 {
 				parts = []string{"tt"}
 			}
-			return c.ret("(Some " + tuple(parts) + ")")
+			return c.ret("(Reached " + tuple(parts) + ")")
+		}
+		if sig.Results().Len() == 0 { // a function without results that writes fields: falls off its end
+			return c.ret(tuple(t.writtenNames()))
 		}
 		if pure {
 			return t.fail("control reaches the end of the function")
@@ -1567,12 +1817,20 @@ func (T *Translator) run(fn *Func, pure bool) *ft {
 			}
 		}
 	}
+	fn.Inputs = append(fn.Inputs, t.orcl...) // what the calls outside the set returned, in source order
 	fn.Monadic, fn.Fuel, fn.Loops = !pure, t.fuel[0], t.loops
 	fn.Text = body
 	fn.Vars, fn.Results = nil, fn.Results[:len(fn.Results):len(fn.Results)]
 	for _, v := range t.vars {
 		fn.Vars = append(fn.Vars, t.names[v])
 		fn.Results = append(fn.Results, KindOf(v.Type()))
+	}
+	fn.Written = t.written
+	for _, in := range t.written {
+		fn.Vars = append(fn.Vars, in.Name)
+		if t.prefix > 0 {
+			fn.Results = append(fn.Results, in.Kind)
+		}
 	}
 	return t
 }
@@ -1595,11 +1853,38 @@ func (T *Translator) finish(fn *Func, t *ft, file string) {
 		if len(tys) == 0 {
 			tys = []string{"unit"}
 		}
-		res = "(option (" + strings.Join(tys, " * ") + "))"
+		var wtys, wnames []string
+		for _, in := range fn.Written {
+			wtys, wnames = append(wtys, in.Kind.Coq()), append(wnames, in.Name)
+		}
+		if len(wtys) == 0 {
+			wtys, wnames = []string{"unit"}, []string{"tt"}
+		}
+		res = "(frag (" + strings.Join(wtys, " * ") + ") (" + strings.Join(tys, " * ") + "))"
 		list := fn.Decl.Body.List
 		line := func(p token.Pos) int { return fn.Pkg.Fset.Position(p).Line }
-		note = fmt.Sprintf(": the first %d of the %d statements of the body (lines %d-%d).\n   None = a return statement was reached; Some %s = the variables when control reaches the next statement",
-			fn.Prefix, len(list), line(list[0].Pos()), line(list[fn.Prefix-1].End()), tuple(append([]string{}, fn.Vars...)))
+		var rets []string
+		ast.Inspect(fn.Decl.Body, func(n ast.Node) bool {
+			if r, ok := n.(*ast.ReturnStmt); ok && r.Pos() < list[fn.Prefix-1].End() {
+				rets = append(rets, fmt.Sprintf("%d: line %d", len(rets)+1, line(r.Pos())))
+			}
+			_, lit := n.(*ast.FuncLit)
+			return !lit
+		})
+		note = fmt.Sprintf(": the first %d of the %d statements of the body (lines %d-%d).\n   Returned k %s = the k-th return statement of the function was reached (%s), with these values of the fields assigned;\n   Reached %s = control reaches the next statement with these variables",
+			fn.Prefix, len(list), line(list[0].Pos()), line(list[fn.Prefix-1].End()), tuple(wnames), strings.Join(rets, ", "), tuple(append([]string{}, fn.Vars...)))
+	}
+	if len(fn.Written) > 0 && fn.Prefix == 0 {
+		var ws []string
+		for _, in := range fn.Written {
+			ws = append(ws, in.Name)
+		}
+		note += fmt.Sprintf(".\n   The fields it assigns follow its results: %s", strings.Join(ws, ", "))
+	}
+	for _, in := range fn.Inputs {
+		if in.Oracle != "" {
+			note += fmt.Sprintf(".\n   %s = what call %s of %s returned", in.Name, in.Oracle[strings.Index(in.Oracle, "#")+1:], in.Oracle[:strings.Index(in.Oracle, "#")])
+		}
 	}
 	full := res
 	if fn.Monadic {
@@ -1621,7 +1906,7 @@ func (T *Translator) File() string {
 	b.WriteString("From Coq Require Import ZArith Bool.\n")
 	sem := false
 	for _, f := range T.Order {
-		if f.Err == nil && (f.Monadic || strings.Contains(f.Text, "go_len") || strings.Contains(f.Text, "list Z")) {
+		if f.Err == nil && !f.Extern && (f.Monadic || f.Prefix > 0 || strings.Contains(f.Text, "go_len") || strings.Contains(f.Text, "list Z")) {
 			sem = true
 		}
 	}
